@@ -56,6 +56,8 @@ def delVar (x : String) (ns : List (String × PVal)) : List (String × PVal) := 
 /-- `self.data[x] = v` -/
 def setVar (x : String) (v : PVal) (ns : List (String × PVal)) : List (String × PVal) := (x, v) :: delVar x ns
 def St.set (s : St) (x : String) (v : PVal) : St := { s with ns := setVar x v s.ns }
+/-- `self.data[loop_index_var_name] = val` -/
+def M.setVar (x : String) (v : PVal) : M Unit := fun s => (s.set x v, .ok ())
 /-- `self.data.pop(x, None)` for every target -/
 def St.popAll (s : St) (xs : List String) : St := { s with ns := xs.foldl (fun ns x => delVar x ns) s.ns }
 
@@ -120,17 +122,22 @@ def tableCompare (P : Prim) (astName : String) : Except Err (PVal → PVal → E
     | some .guardedNotIn => .ok (fun l r =>
         if l.isMissing || r.isMissing then .ok (.bool false) else (P.contains r l).map (fun b => PVal.bool (b == false)))
 
+/-- one link of a `Compare`: `comp = AST_COMPARATORS[type(op)]`, then the typed-matcher special case for `in` /
+    `not in` (`any(comp(v, right) for v in left._values())`), else `comp(left, right)` -/
+def linkCompare (P : Prim) (op : String) (left right : PVal) : M PVal := fun st =>
+  match tableCompare P op with
+  | .error e => (st, .error e)
+  | .ok comp =>
+    if (op == "In" || op == "NotIn") && left.isTmatch then
+      (st, (anyValues P comp right (P.tmValues st.record left)).map PVal.bool)
+    else (st, comp left right)
+
 /-- the `Compare` loop: every link of the chain, left to right, stopping at the first falsy result -/
 def evalChain (P : Prim) (self : Expr → M PVal) : PVal → List (String × Expr) → PVal → M PVal
   | _, [], result => pure result
   | left, (op, c) :: rest, _ => do
     let right ← self c
-    let comp ← M.lift (tableCompare P op)
-    let st ← (fun s => (s, .ok s) : M St)
-    let result ←
-      if (op == "In" || op == "NotIn") && left.isTmatch then
-        M.lift ((anyValues P comp right (P.tmValues st.record left)).map PVal.bool)
-      else M.lift (comp left right)
+    let result ← linkCompare P op left right
     if !P.truthy result then pure result else evalChain P self right rest result
 
 /-- `all(self.eval(cond) for cond in gen.ifs)` -/
@@ -160,7 +167,7 @@ def loopGens (P : Prim) (self : Expr → M PVal) (c : Consumer) (elt : Expr) : L
     else do
       let vals ← M.lift (P.iter itv)
       forVals (fun val => do
-        (fun s => (s.set (tgt.getD "") val, .ok ()) : M Unit)
+        M.setVar (tgt.getD "") val
         if ← evalIfs P self ifs then loopGens P self c elt rest else pure none) vals
 
 /-- `generator_expr()`: refuse targets that are already bound, run the loops, always pop the targets afterwards -/
@@ -217,6 +224,16 @@ def evalCall (P : Prim) (self : Expr → M PVal) (func : Expr) (args : List Expr
         M.lift (P.call f a k)
       else M.throw .invalidOp
 
+/-- `AST_OPERATORS[type(node.op)]` for a BinOp, through the generated table (a missing key is a KeyError; `not_`
+    called with two arguments is a TypeError) -/
+def tableArith (op : String) : Except Err ArithOp :=
+  match Gen.AST_OPERATORS.lookup op with
+  | none => .error .keyErr
+  | some tgt =>
+    match arithOfTarget tgt with
+    | some a => .ok a
+    | none => .error (if tgt == "operator.not_" then .typeErr else .unmodelled)
+
 /-- One level of `_eval`. -/
 def evalStep (P : Prim) (self : Expr → M PVal) (e : Expr) : M PVal :=
   if !(Gen.evalNodeKinds.contains e.kind) then M.throw .typeErr
@@ -240,12 +257,9 @@ def evalStep (P : Prim) (self : Expr → M PVal) (e : Expr) : M PVal :=
       let rv ← self r
       if binopGuard lv rv then pure (.bool false)
       else
-        match Gen.AST_OPERATORS.lookup op with
-        | none => M.throw .keyErr
-        | some tgt =>
-          match arithOfTarget tgt with
-          | some a => M.lift (P.arith a lv rv)
-          | none => M.throw (if tgt == "operator.not_" then .typeErr else .unmodelled)
+        match tableArith op with
+        | .ok a => M.lift (P.arith a lv rv)
+        | .error e => M.throw e
     | .unary op x =>
       match Gen.AST_OPERATORS.lookup op with
       | none => M.throw .keyErr
